@@ -12,6 +12,8 @@ import Pyunicorn.Model.Window
   | `N` (continue with ClimateData(obj.observable(), obj.grid, …))
   | `sh=<perms>` (shuffled_anomaly, one permutation per column, rows separated by `;`)
   | `cs` (`__cache_state__()`: the counter `_mut_window`)
+  | `W32=a,b,c,d,e,f` (round 5: set_window with Python-float bounds that need not be float32
+    numbers: converted to float32 and compared in float32, `Obj.setWindow32`)
   | `shr=<draws>` (round 4: shuffled_anomaly on the raw 32-bit output stream of the generator;
     answer = the matrix, `@`, the number of draws left over; `exhausted` if the stream runs out)
 
@@ -101,6 +103,13 @@ def doOp (o : Obj) (tok : String) : String × Obj :=
     | none => ("bad-window", o)
     | some w =>
       let (r, o') := o.setWindow w
+      (if r then "raise:ValueError" else "ok", o')
+  else if tok.startsWith "W32=" then
+    -- round 5: Python-float bounds on the float32 grid, compared in float32 as NumPy 2 does
+    match parseWin (tok.drop 4).toString with
+    | none => ("bad-window", o)
+    | some w =>
+      let (r, o') := o.setWindow32 w
       (if r then "raise:ValueError" else "ok", o')
   else if tok.startsWith "sp=" then
     (showRes showNats (indicesSelectedPhasesI o.cycle T (ints (tok.drop 3).toString)), o)
